@@ -166,7 +166,11 @@ func RunSpaces(run *evid.Run, spaces []Space, deadline time.Time, workers int) *
 		}, nil)
 		agg.Recheck = map[string]any{"space": sp.P.Name(), "states_first": ps["states"], "states_second": res.States,
 			"transitions_first": ps["transitions"], "transitions_second": res.Transitions,
-			"identical": res.States == ps["states"].(int64) && res.Transitions == ps["transitions"].(int64)}
+			// under a deviation bound a state is re-expanded when it is reached again with
+			// fewer deviations, so the number of transitions executed depends on which
+			// worker reaches it first; the set of states does not
+			"identical": res.States == ps["states"].(int64) &&
+				(sp.Dev >= 0 || res.Transitions == ps["transitions"].(int64))}
 		if res.Exhaustive && agg.Recheck["identical"] != true {
 			agg.Caps = append(agg.Caps, "nondeterminism_detected in "+sp.P.Name())
 		}
